@@ -34,6 +34,7 @@ Identities are labels assigned by the Env (driver-created "D<i>:", program-creat
 "P<n>:", anything else "U<n>:" in first-seen order) - never addresses.
 """
 
+import gc
 import hashlib
 import itertools
 import sys
@@ -389,8 +390,19 @@ def _exc_class(name):
 
 
 def quiet():
-    """Generators left suspended after 'generator ignored GeneratorExit' are finalised by the GC; keep stderr clean."""
+    """Worker set-up.
+
+    Generators left suspended after 'generator ignored GeneratorExit' are finalised when they are freed; their
+    finally-arms then write to the program log.  When such a generator sits in a reference cycle (through the
+    traceback of the RuntimeError) the moment of finalisation would depend on the cyclic collector, i.e. on allocation
+    counts.  The collector is therefore switched off and run explicitly BETWEEN executions (run_script), so that
+    within one execution only reference counting frees objects - which is deterministic.
+    """
     sys.unraisablehook = lambda *a: None
+    gc.disable()
+
+
+_runs_since_gc = 0
 
 
 class Obs:
@@ -425,6 +437,11 @@ def run_script(factory, script, env=None, respond=None):
     factory(env) -> generator.  ``respond(env, msg, value)`` may replace the value of a send action
     (scripted responders).  Returns Obs.
     """
+    global _runs_since_gc
+    _runs_since_gc += 1
+    if _runs_since_gc >= 5000 and not gc.isenabled():
+        _runs_since_gc = 0
+        gc.collect()
     env = env or Env()
     gen = factory(env)
     steps = []
@@ -512,6 +529,17 @@ def differential(factory_a, factory_b, max_depth, actions=ACTIONS, first=FIRST_A
             res["n_steps"] += 2 * len(s)
             res["obs"].append((s, oa))
             if view(oa) != view(ob):
+                # every mismatch is re-executed (after a full collection) before it is reported
+                gc.collect()
+                oa2 = run_script(factory_a, s, env_factory(), respond)
+                ob2 = run_script(factory_b, s, env_factory(), respond)
+                if view(oa2) != view(oa) or view(ob2) != view(ob):
+                    res["unconfirmed"] = res.get("unconfirmed", 0) + 1
+                    if view(oa2) == view(ob2):
+                        if oa.alive:
+                            stack.append(s)
+                        continue
+                    oa, ob = oa2, ob2
                 res["mismatches"].append((s, oa, ob))
                 continue
             if oa.alive:
